@@ -246,7 +246,7 @@ def _worker(conn, repo):
             return guarded(call, real_shutil.rmtree, mp(path))
 
     def fake_open(path, mode="r", *a, **kw):
-        if "x" in mode:
+        if set(mode) & set("xwa"):           # creating the ethertype file, exclusively or not
             gate("xopen")
             return guarded("xopen", lambda: builtins.open(mp(path), mode, *a, **kw))
         return builtins.open(mp(path), mode, *a, **kw)
@@ -561,6 +561,7 @@ def replay(repo, base, schedule, tag="r", drain=True, timeout=10.0, pool=None, m
     parts = {}
     ev = []
     st8 = dict(holder="none", mutex="none", drift=0, blocked=0)
+    ahead = {}                                   # calls passed that the schedule did not name (yet)
 
     def look():
         return observe(root, parts, st8["holder"], st8["mutex"])
@@ -587,6 +588,9 @@ def replay(repo, base, schedule, tag="r", drain=True, timeout=10.0, pool=None, m
         if w.final():
             st8["drift"] += 1
             return False
+        if expected and a is not None and a in ahead.get(p, []) and w.parked != a:
+            ahead[p].remove(a)                   # passed already on the way to an earlier step
+            return True
         if expected and a is not None and w.state == "running" and a not in STOP_FIRST:
             st8["drift"] += 1                    # never leave the context unless the schedule says so
             return True
@@ -599,12 +603,17 @@ def replay(repo, base, schedule, tag="r", drain=True, timeout=10.0, pool=None, m
             # the code is not at the call the schedule expects (its protocol differs from the
             # model's): let it pass the calls in between, but never leave the context for it
             st8["drift"] += 1
-            for _ in range(12):
+            if a in ahead.get(p, []):
+                ahead[p].remove(a)
+                return True
+            for _ in range(8):
                 if w.final() or w.state == "running" or w.parked == a:
                     break
+                passing = w.parked
                 step(p, None, 0, expected=False)
                 if w.blocked:
                     break
+                ahead.setdefault(p, []).append(passing)
             if w.final() or w.state == "running" or w.blocked:
                 return True
             g = w.parked
